@@ -289,7 +289,24 @@ def main():
     sb, _ = function_body(src, r"NodeSorter::sort\(\s*StylesheetExecutionContext&\s*executionContext\s*\)")
     if not re.search(r"\bstable_sort\(\s*m_scratchVector\.begin\(\)\s*,\s*m_scratchVector\.end\(\)\s*,\s*theComparer\s*\)", sb):
         raise Unsupported("sort(): stable_sort(m_scratchVector.begin(), m_scratchVector.end(), theComparer) not found")
+    # the guards that make the sorter clean at exit on the normal AND the exceptional path (model: Sorter.guards)
+    g1 = re.search(r"const\s+CollectionClearGuard<\s*NumberResultsCacheType\s*>\s+\w+\(\s*m_numberResultsCache\s*\)\s*;", sb)
+    g2 = re.search(r"const\s+CollectionClearGuard<\s*StringResultsCacheType\s*>\s+\w+\(\s*m_stringResultsCache\s*\)\s*;", sb)
+    ss = re.search(r"\bstable_sort\(", sb)
+    if not (g1 and g2 and ss and g1.start() < ss.start() and g2.start() < ss.start()):
+        raise Unsupported("sort(): the two CollectionClearGuard objects for m_numberResultsCache / m_stringResultsCache "
+                          "are no longer constructed before stable_sort (caches would survive a sort that throws)")
     sb2, _ = function_body(src, r"NodeSorter::sort\(\s*StylesheetExecutionContext&\s*executionContext\s*,\s*MutableNodeRefList&\s*theList\s*\)")
+    g3 = re.search(r"CollectionClearGuard<\s*NodeVectorType\s*>\s+\w+\(\s*m_scratchVector\s*\)\s*;", sb2)
+    pb = re.search(r"m_scratchVector\.push_back\(", sb2)
+    if not (g3 and pb and g3.start() < pb.start()):
+        raise Unsupported("sort(list): the CollectionClearGuard for m_scratchVector is no longer constructed before the vector is filled")
+    efe0 = strip_comments(open(os.path.join(common.REPO, "src", "xalanc", "XSLT", "ElemForEach.cpp"), encoding="utf-8", errors="replace").read())
+    scb0, _ = function_body(efe0, r"ElemForEach::sortChildren\(")
+    g4 = re.search(r"CollectionClearGuard<\s*NodeSortKeyVectorType\s*>\s+\w+\(\s*keys\s*\)\s*;", scb0)
+    lp = re.search(r"\bfor\s*\(", scb0)
+    if not (g4 and lp and g4.start() < lp.start() and re.search(r"NodeSortKeyVectorType&\s*keys\s*=\s*sorter->getSortKeys\(\)\s*;", scb0)):
+        raise Unsupported("sortChildren: the CollectionClearGuard for the sorter's key vector is no longer constructed before the xsl:sort loop")
     for pat, what in [(r"m_keys\.empty\(\)\s*==\s*false", "m_keys.empty() == false guard"),
                       (r"m_scratchVector\.push_back\(\s*NodeVectorType::value_type\(\s*theList\.item\(i\)\s*,\s*i\s*\)\s*\)", "push_back(value_type(theList.item(i), i))"),
                       (r"theList\.clear\(\)", "theList.clear()"),
